@@ -461,6 +461,50 @@ def load_known():
     return json.load(open(p))
 
 
+def replay_generic_known(ctx, prop):
+    """Replay the recorded findings of `prop` whose witness has the generic shape
+    {"files": {relative path: size}, "dirs": [...], "argv": [...], "cwd": "." , "expected_rows": [...], "observed": {"status": n} | {"rows": [...]}}:
+    prints KNOWN-FINDING while the witness still misbehaves in the recorded way, notes when it behaves as expected,
+    and reports a violation when it misbehaves in a DIFFERENT way."""
+    for k in load_known():
+        w = k.get("witness", {})
+        if k["property"] != prop or k["status"] != "known" or "files" not in w or "observed" not in w:
+            continue
+        base = os.path.join(ctx.scratch, "known_" + k["id"])
+        os.makedirs(base)
+        for d in w.get("dirs", []):
+            os.makedirs(os.path.join(base, d), exist_ok=True)
+        for rel, size in w["files"].items():
+            os.makedirs(os.path.dirname(os.path.join(base, rel)), exist_ok=True)
+            with open(os.path.join(base, rel), "wb") as f:
+                f.write(b"x" * size)
+        obs = w["observed"]
+        if obs.get("varies"):
+            # the recorded misbehaviour is an output that changes from run to run (hash seed): several runs
+            outcomes = set()
+            for _ in range(16):
+                r = ctx.impl.rows(w["argv"], cwd=base)
+                outcomes.add((r["status"], tuple(v.decode("utf-8", "replace") for v in r["values"])))
+            if len(outcomes) > 1 or outcomes != {(0, tuple(w["expected_rows"]))}:
+                if all(st_ == 0 and sorted(rw) == sorted(w["expected_rows"]) for st_, rw in outcomes):
+                    ctx.known_lines.append("KNOWN-FINDING: property=%s %s %s" % (prop, k["id"], k["what"]))
+                else:
+                    ctx.violation("impl-violates-spec", "the witness of %s now behaves differently: %s" % (k["id"], sorted(outcomes)[:3]), input={"files": w["files"], "argv": w["argv"]})
+            else:
+                ctx.notes.append("%s: witness no longer fails in 16 runs; update KNOWN_FINDINGS.json" % k["id"])
+            continue
+        r = ctx.impl.rows(w["argv"], cwd=base)
+        rows = [v.decode("utf-8", "replace") for v in r["values"]]
+        same = (("status" in obs and r["status"] == obs["status"]) or "status" not in obs) and (("rows" in obs and rows == obs["rows"]) or "rows" not in obs)
+        if same:
+            ctx.known_lines.append("KNOWN-FINDING: property=%s %s %s" % (prop, k["id"], k["what"]))
+        elif r["status"] == 0 and rows == w.get("expected_rows"):
+            ctx.notes.append("%s: witness no longer fails; update KNOWN_FINDINGS.json" % k["id"])
+        else:
+            ctx.violation("impl-violates-spec", "the witness of %s now behaves differently: status %s, rows %s (recorded %s, expected %s)" % (k["id"], r["status"], rows[:12], obs, w.get("expected_rows")),
+                          input={"files": w["files"], "argv": w["argv"]})
+
+
 class Ctx:
     """One run of one property check."""
 
